@@ -29,15 +29,14 @@ import (
 	"encoding/json"
 	"fmt"
 	"io/ioutil"
-	"log"
 	"math/rand"
 	"os"
 	"os/exec"
 	"path/filepath"
-	"regexp"
 	"sort"
 	"strconv"
 	"strings"
+	"syscall"
 	"testing"
 	"time"
 )
@@ -316,13 +315,13 @@ func xkbELF(in xkbIn) (img []byte, off, win int) {
 	binary.LittleEndian.PutUint64(fill[:], xkbWord(*in.Fill))
 
 	type shdr struct {
-		name                   string
-		typ                    uint32
-		flags                  uint64
-		off, size              uint64
-		link, info             uint32
-		align, entsize         uint64
-		nameOff                uint32
+		name           string
+		typ            uint32
+		flags          uint64
+		off, size      uint64
+		link, info     uint32
+		align, entsize uint64
+		nameOff        uint32
 	}
 	buf := make([]byte, 64)
 	secs := []shdr{{}}
@@ -543,7 +542,9 @@ func xkbSetup(c xkbCase, dir string) error {
 			}
 			return b.String()
 		}
-		w := func(name, text string, mode os.FileMode) error { return ioutil.WriteFile(filepath.Join(tools, name), []byte(text), mode) }
+		w := func(name, text string, mode os.FileMode) error {
+			return ioutil.WriteFile(filepath.Join(tools, name), []byte(text), mode)
+		}
 		for _, f := range [][2]string{{"script.txt", join(in.Lines)}, {"nm.txt", join(in.Nm)}, {"build.rc", strconv.Itoa(*in.Buildrc)}, {"nm.rc", strconv.Itoa(*in.Nmrc)}} {
 			if err := w(f[0], f[1], 0644); err != nil {
 				return err
@@ -611,9 +612,11 @@ func xkbCall(c xkbCase, dir string, st *xkbState, out map[string]interface{}) {
 	case "ve":
 		b := []byte(xkbStr(in.Banner))
 		if in.Tool == "objcopy" {
-			out["msg"] = checkObjcopyVersion(b)
+			m := checkObjcopyVersion(b)
+			out["ok"], out["msg"] = m == "", xkbChars(m)
 		} else {
-			out["msg"] = checkXorrisoVersion(b)
+			m := checkXorrisoVersion(b)
+			out["ok"], out["msg"] = m == "", xkbChars(m)
 		}
 	case "cd":
 		os.Setenv("PATH", filepath.Join(dir, "bin"))
@@ -645,7 +648,57 @@ func xkbCall(c xkbCase, dir string, st *xkbState, out map[string]interface{}) {
 	}
 }
 
-var xkbErrRe = regexp.MustCompile(`^kbuild: (.*): could not find (src|dst) address for "(.*)"$`)
+// xkbWordIn reports whether sym occurs in line as a word of its own (not inside a longer symbol name).
+func xkbWordIn(line, sym string) bool {
+	isSym := func(c byte) bool {
+		return c == '_' || c == '.' || c == '/' || c == '(' || c == ')' || c == '*' || c == '-' || c >= '0' && c <= '9' || c >= 'a' && c <= 'z' || c >= 'A' && c <= 'Z'
+	}
+	if sym == "" {
+		return false
+	}
+	for from := 0; ; {
+		i := strings.Index(line[from:], sym)
+		if i < 0 {
+			return false
+		}
+		i += from
+		j := i + len(sym)
+		if (i == 0 || !isSym(line[i-1])) && (j == len(line) || !isSym(line[j]) || line[j] == '.' && (j+1 == len(line) || line[j+1] == ' ')) {
+			return true
+		}
+		from = i + 1
+	}
+}
+
+// xkbNasmDefs reads `NAME equ NUMBER` definitions the way the assembler does (comments and blank lines dropped);
+// a line that is no such definition yields the name "?".
+func xkbNasmDefs(text string) []xkbSym {
+	defs := []xkbSym{}
+	for _, l := range strings.Split(text, "\n") {
+		if i := strings.IndexByte(l, ';'); i >= 0 {
+			l = l[:i]
+		}
+		f := strings.Fields(l)
+		if len(f) == 0 {
+			continue
+		}
+		d := xkbSym{"?", [4]int{-1, -1, -1, -1}}
+		if len(f) == 3 && strings.EqualFold(f[1], "equ") {
+			num, base := f[2], 10
+			switch {
+			case strings.HasPrefix(num, "0x") || strings.HasPrefix(num, "0X"):
+				num, base = num[2:], 16
+			case strings.HasSuffix(num, "h") || strings.HasSuffix(num, "H"):
+				num, base = num[:len(num)-1], 16
+			}
+			if v, err := strconv.ParseUint(num, base, 64); err == nil {
+				d = xkbSym{f[0], xkbLimbs(v)}
+			}
+		}
+		defs = append(defs, d)
+	}
+	return defs
+}
 
 func xkbLogLines(dir string) []string {
 	data, _ := ioutil.ReadFile(filepath.Join(dir, "log.txt"))
@@ -705,16 +758,20 @@ func xkbObserve(c xkbCase, dir string, st *xkbState, out map[string]interface{})
 				outside++
 			}
 		}
-		errs := [][3]string{}
-		other := []string{}
-		for _, l := range xkbLogLines(dir) {
-			if m := xkbErrRe.FindStringSubmatch(l); m != nil {
-				errs = append(errs, [3]string{m[1], m[2], m[3]})
-			} else {
-				other = append(other, l)
+		lines := xkbLogLines(dir)
+		named := []bool{}
+		for i, r := range in.Reds {
+			pos := fmt.Sprintf("f%d.go:%d:1", i+1, i+1)
+			n := false
+			for _, l := range lines {
+				if strings.Contains(l, pos) || xkbWordIn(l, r[0]) || xkbWordIn(l, r[1]) {
+					n = true
+					break
+				}
 			}
+			named = append(named, n)
 		}
-		out["words"], out["outside"], out["errs"], out["other"] = words, outside, errs, other
+		out["words"], out["outside"], out["named"] = words, outside, named
 	case "ls":
 		data, err := ioutil.ReadFile(filepath.Join(dir, "work", "linker.ld"))
 		out["written"], out["text"] = err == nil, string(data)
@@ -726,7 +783,7 @@ func xkbObserve(c xkbCase, dir string, st *xkbState, out map[string]interface{})
 			}
 		}
 		data, err := ioutil.ReadFile(filepath.Join(dir, "go_asm_offsets.inc"))
-		out["offs"], out["written"], out["text"] = offs, err == nil, string(data)
+		out["offs"], out["written"], out["defs"] = offs, err == nil, xkbNasmDefs(string(data))
 	case "cd":
 		paths := []string{}
 		if st != nil && st.ctx != nil {
@@ -737,7 +794,12 @@ func xkbObserve(c xkbCase, dir string, st *xkbState, out map[string]interface{})
 				paths = append(paths, p)
 			}
 		}
-		out["paths"], out["log"] = paths, xkbLogLines(dir)
+		printed := strings.Join(xkbLogLines(dir), "\n")
+		mention := []int{}
+		for _, tl := range in.Tools {
+			mention = append(mention, strings.Index(printed, tl.Name))
+		}
+		out["paths"], out["mention"] = paths, mention
 	case "rt":
 		calls := []map[string]interface{}{}
 		for _, a := range xkbRecorded(filepath.Join(dir, "tools", "nasm.log")) {
@@ -782,7 +844,11 @@ func xkbObserve(c xkbCase, dir string, st *xkbState, out map[string]interface{})
 	case "ck":
 		norm := func(x string) string { return strings.Replace(x, dir, "$DIR", -1) }
 		data, err := ioutil.ReadFile(filepath.Join(dir, "work", "build.sh"))
-		out["written"], out["script"] = err == nil, norm(string(data))
+		lines := []string{}
+		if len(data) > 0 {
+			lines = strings.Split(strings.TrimSuffix(norm(string(data)), "\n"), "\n")
+		}
+		out["written"], out["lines"] = err == nil, lines
 		env, _ := ioutil.ReadFile(filepath.Join(dir, "tools", "go.env"))
 		out["goenv"] = strings.TrimSuffix(string(env), "\n")
 		goargs := []string{}
@@ -871,20 +937,27 @@ func TestVerifXkbChild(t *testing.T) {
 				t.Fatal(err)
 			}
 			enc.Encode(xkbRec{I: i, R: r, Begin: true})
-			log.SetOutput(lf)
+			// everything the run prints (log output, stdout, stderr, a Go crash report) goes to the run's own file
+			o1, _ := syscall.Dup(1)
+			o2, _ := syscall.Dup(2)
+			syscall.Dup2(int(lf.Fd()), 1)
+			syscall.Dup2(int(lf.Fd()), 2)
 			out := map[string]interface{}{}
 			st := &xkbState{}
 			func() {
 				defer func() {
 					if p := recover(); p != nil {
 						out["res"] = "panic"
-						out["msg"] = fmt.Sprint(p)
+						out["panicmsg"] = fmt.Sprint(p)
 					}
 				}()
 				xkbCall(cs, dir, st, out)
 				out["res"] = "ok"
 			}()
-			log.SetOutput(os.Stderr)
+			syscall.Dup2(o1, 1)
+			syscall.Dup2(o2, 2)
+			syscall.Close(o1)
+			syscall.Close(o2)
 			lf.Close()
 			os.Chdir(xkbHome)
 			restore()
@@ -988,15 +1061,16 @@ func xkbChain(work string, casesPath string, offsets []int64, cases []xkbCase, r
 		}
 		// the process ended inside the code under test: observe what it left behind
 		out := map[string]interface{}{"res": "exit", "code": exitErr.ExitCode()}
-		if exitErr.ExitCode() < 0 || bytes.Contains(msg, []byte("panic:")) || bytes.Contains(msg, []byte("fatal error:")) {
+		dir := xkbRunDir(work, pass, open, openR)
+		printed, _ := ioutil.ReadFile(filepath.Join(dir, "log.txt"))
+		if exitErr.ExitCode() < 0 || bytes.Contains(printed, []byte("\npanic:")) || bytes.HasPrefix(printed, []byte("panic:")) || bytes.Contains(printed, []byte("fatal error:")) {
 			out["res"] = "died"
-			tail := string(msg)
+			tail := string(printed)
 			if len(tail) > 400 {
 				tail = tail[len(tail)-400:]
 			}
-			out["msg"] = tail
+			out["panicmsg"] = tail
 		}
-		dir := xkbRunDir(work, pass, open, openR)
 		xkbObserve(cases[open], dir, nil, out)
 		os.RemoveAll(dir)
 		res[open] = append(res[open], out)
@@ -1198,6 +1272,12 @@ func xkbRandBanner(rng *rand.Rand, tool string) string {
 		if rng.Intn(2) == 0 {
 			v += fmt.Sprintf(".%d", rng.Intn(100))
 		}
+	}
+	if tool == "objcopy" && rng.Intn(3) == 0 {
+		// a plain banner whose first line ends in different ways (LF, CRLF, trailing blank or tab)
+		return xkbPick(rng, []string{"GNU objcopy (GNU Binutils for Ubuntu) ", "GNU objcopy version ", "objcopy "}) +
+			xkbPick(rng, []string{"2.34", "2.26", "2.26.1", "2.38", "3.0.1", "2.25.1", "2.30"}) + xkbPick(rng, []string{"\n", "\r\n", "\r\n", " \n", "\t\n", ""}) +
+			xkbPick(rng, []string{"", "Copyright (C) 2020 Free Software Foundation, Inc.\n"})
 	}
 	if tool == "objcopy" {
 		first := xkbPick(rng, []string{"GNU objcopy (GNU Binutils for Ubuntu) ", "GNU objcopy (GNU Binutils for Debian) ", "GNU objcopy version ", "GNU objcopy (GNU Binutils) ",
